@@ -153,11 +153,23 @@ def expect_order(m):
 def check_pdb(case, feats):
     from vermouth.pdb import pdb as vpdb
     system = build(case)
-    text = vpdb.write_pdb_string(system, conect=True)
+    # through the string function, or through the file-writing function with its options spelled in different ways (bonds are asked
+    # for in every variant, explicitly or by default; charges are kept or omitted)
+    route = int(harness.h([case.get('mols') and len(case['mols']), 'route', len(str(case))]), 16) % 5
     fd, path = tempfile.mkstemp(suffix='.pdb')
+    os.close(fd)
     try:
-        with os.fdopen(fd, 'w') as f:
-            f.write(text + '\n')
+        if route < 2:
+            text = vpdb.write_pdb_string(system, conect=True)
+            with open(path, 'w') as f:
+                f.write(text + '\n')
+        elif route == 2:
+            vpdb.write_pdb(system, path, defer_writing=False)
+        elif route == 3:
+            vpdb.write_pdb(system, path, omit_charges=False, defer_writing=False)
+        else:
+            vpdb.write_pdb(system, path, conect=True, omit_charges=False, nan_missing_pos=False, defer_writing=False)
+        feats['pdb_written_through_' + ['string', 'string', 'write_pdb_defaults', 'write_pdb_with_charges', 'write_pdb_all_options'][route]] = 1
         mols = vpdb.read_pdb(path, exclude=())
     finally:
         os.remove(path)
